@@ -251,7 +251,7 @@ func (p probe) String(cuts []int) string {
 }
 
 // tamperPlan lists the probes every flipped packet goes through, in order. full: every entry
-// point x every reader form. Otherwise (quick tier, deviated shapes): the typed entry point x
+// point x every reader form. Otherwise (deviated shapes; thorough: 2-deviation shapes): the typed entry point x
 // every reader form and spec.ReadPacket from contiguous bytes.
 func tamperPlan(full bool, ncuts int) []probe {
 	var pl []probe
